@@ -256,6 +256,10 @@ func TestC37_NoTwoSuccessors(t *testing.T) {
 			return
 		}
 		for i, r := range res {
+			if r.Panicked && stats.Known("C04", "merge-pass-mixture-commits-misplaced-key") && s.OthersMutatedRegistryDuringLastMerge(i) && strings.Contains(r.OpErr.Error(), "refetchAndMergeModifications") {
+				rec.Exclude("panic inside a refetch-and-merge pass that another writer's commit overlapped (known C04 finding)")
+				return
+			}
 			if r.Panicked {
 				t.Fatalf("p%d: %v\n%s", i, r.OpErr, desc)
 			}
